@@ -4,7 +4,11 @@ import json, os, re, sys
 V = os.path.dirname(os.path.dirname(os.path.abspath(__file__)))
 res = {}
 first = {}
-for path in sys.argv[1:]:
+paths = sys.argv[1:]
+if not paths:
+    d = os.path.join(V, 'seeded', 'logs')
+    paths = sorted((os.path.join(d, f) for f in os.listdir(d) if f.endswith('.log')), key=lambda x: int(re.search(r'(\d+)', os.path.basename(x)).group(1)))
+for path in paths:
     cur = None
     for line in open(path, errors='replace'):
         m = re.match(r'=== (C\d\d) on (\S+)', line)
